@@ -469,6 +469,11 @@ func checkC02(r *core.Run) {
 	r.Assume(aGen)
 	r.Assume("A-addr: bech32 strings read back from the store were valid when written (Must*AddressFromBech32 on them does not panic)")
 	r.Assume("A-flow: a guard and the guarded use of a memory-held operand are not separated by a write to that operand")
+	r.Rule("T-couple(divisor): Pool.TotalStorage — the divisor of the per-byte reward accrual in node.BeginBlocker, guarded there only by Pool.TotalPledged being non-zero — moves by the same term as the provider's Pledge.TotalStorage in AddVstorage/RemoveVstorage, so it is zero only when no capacity is pledged")
+	for _, h := range []string{"node/keeper.msgServer.AddVstorage", "node/keeper.msgServer.RemoveVstorage"} {
+		coupleSame(r, "T-couple", h, "node/types.Pledge.TotalStorage", "node/types.Pool.TotalStorage", false)
+		coupleSame(r, "T-couple", h, "node/types.Pledge.TotalStoragePledged", "node/types.Pool.TotalPledged.Amount", true)
+	}
 	ruleL1(r)
 	ruleL2(r)
 	ruleL2Couple(r)
